@@ -21,6 +21,7 @@
     then survives into the next run, also across Close and Reset. *)
 From Coq Require Import List ZArith Bool Arith.
 From PQ Require Import Merge.Model Merge.Instance.
+From PQ Require Sort.Model.
 Import ListNotations.
 Local Open Scope nat_scope.
 
@@ -127,3 +128,36 @@ Arguments SWWrite {A}.
 Arguments SWFlush {A}.
 Arguments SWClose {A}.
 Arguments SWReset {A}.
+
+(** * The instance of the oracle: rows of INT64 / BYTE_ARRAY cells with the
+    index of their arrival, ordered by the comparator of the sorting columns.
+
+    [compare_rows] consults the schema only to know whether a sorting column is
+    optional, that is, whether its comparator is wrapped in CompareNullsFirst /
+    CompareNullsLast; on rows whose required cells hold values the wrapper makes
+    no difference, so the writer's comparator is taken with the wrapper on every
+    column ([cmp_rows_opt]): a total preorder on all rows
+    (Sort/WriterInstance.v: [compare_rows_opt_eq], [cmp_rows_opt_trans]). *)
+Definition opt_schema (sorting : list Sort.Model.sortcol) : list N :=
+  repeat 1%N (S (list_max (map Sort.Model.sc_col sorting))).
+
+Definition cmp_rows_opt (V : Type) (cmp : V -> V -> Z) (sorting : list Sort.Model.sortcol)
+  : Sort.Model.row V -> Sort.Model.row V -> Z :=
+  Sort.Model.compare_rows V cmp (opt_schema sorting) sorting.
+
+Definition witem : Type := (nat * Sort.Model.row Sort.Model.sval)%type.
+
+Definition cmpW (sorting : list Sort.Model.sortcol) (a b : witem) : Z :=
+  cmp_rows_opt Sort.Model.sval Sort.Model.cmp_sval sorting (snd a) (snd b).
+
+(* the model run by the oracle: stable insertion sort for sort.Sort, the
+   reference scheduler (first minimal head) for the merge *)
+Definition sw_model (sorting : list Sort.Model.sortcol) (maxrows : nat) (dedupe keep_last : bool)
+           (ops : list (swop witem)) : list (list witem) :=
+  sw_run witem (cmpW sorting) (isort witem (cmpW sorting)) (ref_merge_all (cmpW sorting))
+         maxrows dedupe keep_last ops.
+
+(* answer of the oracle: the indexes of the rows of every closed file, in order *)
+Definition c10_sw (sorting : list Sort.Model.sortcol) (maxrows : nat) (dedupe keep_last : bool)
+           (ops : list (swop witem)) : list (list nat) :=
+  map (map fst) (sw_model sorting maxrows dedupe keep_last ops).
